@@ -109,6 +109,12 @@ class DispatchableMessageQueue(Stoppable):
         """
         return self._dispatcher_task is not None
 
+    def is_dispatcher_current_task(self) -> bool:
+        """
+        Check if the caller runs inside the dispatcher, i.e. inside the message callback.
+        """
+        return self._dispatcher_task is not None and self._dispatcher_task is asyncio.current_task()
+
     def start_dispatching(self, on_msg_coro: DispatcherCoro) -> None:
         """
         Start dispatching messages from the queue to the coro.
